@@ -52,8 +52,26 @@ def encReport : Except Err AnalysisReport → String
   | .ok (.tags n) => toString n
   | .ok (.sentences n) => toString n
 
+def decWords (w : String) : Option (List Str) := if w == "" then some [] else (w.splitOn ",").mapM decS
+
 def runOpConvert (op : String) (args : List String) : String :=
   match op, args with
+  | "analysis_words", [task, srcfmt, words, src] =>
+    -- as `analysis_src`, from the WORDS of `--src-opts` (TT.runAnalysisWords: options_dict, then what the readers make
+    -- of the dict); OUTSIDE = a value of a kind the readers cannot use, not generated
+    match decSource srcfmt src, analysisTask? task, decWords words with
+    | some s, some tk, some ws => match TT.runAnalysisWords tk ws s with
+      | some r => encReport r
+      | none => "OUTSIDE"
+    | _, _, _ => bad
+  | "convert_words", [srcfmt, words, destfmt, destopts, enc, src] =>
+    match decSource srcfmt src, destFmt? destfmt, decWords words with
+    | some s, some f, some ws =>
+      match TT.runWords [] f (decOutOpts destopts) (if enc == "n" then none else decS enc) ws s with
+      | some (.ok t) => encS t
+      | some (.error e) => encErr e
+      | none => "OUTSIDE"
+    | _, _, _ => bad
   | "analysis_src", [task, srcfmt, srcopts, src] =>
     -- `treetools treeanalysis SRC TASK --src-format F --src-opts ...`: TT.runAnalysisSrc (TT/RunSrc.lean; theorems in
     -- TT/Props/C16Src.lean)
